@@ -314,7 +314,7 @@ def exhaustive_histories(maxlen):
 
 def units(tier, seed):
     us = []
-    nrand, per = (600, 30) if tier == "quick" else (16000, 100)
+    nrand, per = (450, 30) if tier == "quick" else (6000, 100)
     for i in range(nrand // per):
         us.append({"gen": "random", "seed": seed * 100003 + i, "n": per})
     th = template_histories(tier, seed)
@@ -329,7 +329,7 @@ def units(tier, seed):
     for i in range(0, total, chunk):
         us.append({"gen": "exhaustive", "maxlen": maxlen, "lo": i, "hi": min(total, i + chunk)})
     n2, n3 = total, sum(1 for _ in exhaustive_histories(maxlen + 1))
-    idx = sorted(random.Random(seed).sample(range(n2, n3), 900 if tier == "quick" else 40000))
+    idx = sorted(random.Random(seed).sample(range(n2, n3), 600 if tier == "quick" else 12000))
     step = 50 if tier == "quick" else 500
     for i in range(0, len(idx), step):
         us.append({"gen": "exhaustive-sample", "maxlen": maxlen + 1, "idx": idx[i:i + step]})
